@@ -130,12 +130,17 @@ func (p *bitPool) Exhausted() bool {
 	return p.available == 0 && p.length >= mask64TotalBits
 }
 
+// panicBitPoolExhausted panics with the message for a bitPool that ran out of bits.
+func panicBitPoolExhausted() {
+	panic(fmt.Sprintf("run out of the maximum of %d bits. "+
+		"This is likely caused by unclosed queries that lock the world. "+
+		"Make sure that all queries finish their iteration or are closed manually", mask64TotalBits))
+}
+
 // Allocates and returns a new bit. For internal use.
 func (p *bitPool) getNew() uint8 {
 	if p.length >= mask64TotalBits {
-		panic(fmt.Sprintf("run out of the maximum of %d bits. "+
-			"This is likely caused by unclosed queries that lock the world. "+
-			"Make sure that all queries finish their iteration or are closed manually", mask64TotalBits))
+		panicBitPoolExhausted()
 	}
 	b := p.length
 	p.bits[p.length] = b
